@@ -414,9 +414,10 @@ pub fn c15() -> Outcome {
         if m2 != m { fail!(n, d, "as_minimization_problem is not idempotent"); }
     }
     // best feasible: all objective / feasibility patterns over 3 samples with ties, both senses, new and legacy feasibility fields
-    let objs = [1.0f64, -2.0, 1.0, 3.0];
+    // objective values: well separated with a tie; one unit in the last place apart (0.1 + 0.2 vs 0.3); tiny magnitudes around zero - "beats" is the plain order of f64, no tolerance
+    for (oi, objs) in [[1.0f64, -2.0, 1.0, 3.0], [0.1 + 0.2, 0.3, 0.1 + 0.2, 0.29999999999999993], [1e-16, 3e-17, 0.0, -1e-17]].into_iter().enumerate() {
     for sense in [v1::instance::Sense::Minimize, v1::instance::Sense::Maximize] { for pat in 0u64..256 { for legacy in [false, true] {
-        n += 1; d.insert((1000 + sense as usize, pat, legacy as u64));
+        n += 1; d.insert((1000 + 10 * oi + sense as usize, pat, legacy as u64));
         let mut ss = v1::SampleSet::default();
         ss.sense = sense as i32;
         let ids = [10u64, 4, 7, 30];
@@ -444,6 +445,7 @@ pub fn c15() -> Outcome {
             }
         }
     } } }
+    }
     Outcome { cases: n, distinct: d.len(), fail: None }
 }
 
